@@ -348,8 +348,12 @@ def run_history(c, o):
                 cmp_dicts(o, "hist/repeat_linearize", jacs_live(live, ref[cur]["jac"]), ref[cur]["jac"], tol_jac, tags, "component Jacobians after repeated linearisation, history %s" % ops[-6:])
                 nobs += 1
             elif op == "totals":
-                cmp_dicts(o, "hist/totals", totals_of(live, of, wrt), ref[cur]["tot"], tol_tot, tags, "totals after %s" % ops[-6:])
-                nobs += 1
+                if not polluted_comps:
+                    cmp_dicts(o, "hist/totals", totals_of(live, of, wrt), ref[cur]["tot"], tol_tot, tags, "totals after %s" % ops[-6:])
+                    nobs += 1
+                else:
+                    totals_of(live, of, wrt)  # still part of the history
+                    o.count("totals_not_compared_after_framework_fd_pollution")
             elif op == "check_partials":
                 from openmdao.core.component import Component
 
@@ -381,9 +385,10 @@ def run_history(c, o):
                     except Exception as e:  # noqa: BLE001
                         ops[-1] = "check_totals_failed:" + type(e).__name__
                 observe("check_totals")
-                cmp_dicts(o, "hist/totals", totals_of(live, of, wrt), ref[cur]["tot"], (lambda k: (1e-4, 1e-9)) if polluted_comps else (lambda k: (1e-7 if not coupled else 1e-6, 1e-10)), tags + ["after=check_totals"],
-                          "totals right after check_totals (no re-run), history %s" % ops[-6:])
-                nobs += 1
+                if not polluted_comps:  # once the framework has written FD estimates into constant Jacobians the totals are not the repository's
+                    cmp_dicts(o, "hist/totals", totals_of(live, of, wrt), ref[cur]["tot"], lambda k: (1e-7 if not coupled else 1e-6, 1e-10), tags + ["after=check_totals"],
+                              "totals right after check_totals (no re-run), history %s" % ops[-6:])
+                    nobs += 1
     finally:
         guard.remove()
     o.count("compute_calls_guarded", guard.calls)
